@@ -1,0 +1,49 @@
+//go:build verif
+// +build verif
+
+package php7
+
+import (
+	"expvar"
+	"fmt"
+	"os"
+
+	"github.com/z7zmey/php-parser/pkg/token"
+)
+
+// Runtime-verification hook (build tag "verif"): every token handed to the
+// grammar is checked online. Tokens must not start before the previous one
+// ended and a parse may not receive more than len(input)+8 tokens; either
+// violation panics with a message starting with "verif:".
+
+type verifState struct {
+	tokens  int
+	lastEnd int
+}
+
+var verifStatTokens *expvar.Int
+
+func init() {
+	if os.Getenv("VERIF_STATS") == "1" {
+		verifStatTokens = expvar.NewInt("verif_php7_tokens")
+	}
+}
+
+func (p *Parser) verifLex(t *token.Token) {
+	v := &p.verif
+	v.tokens++
+	if verifStatTokens != nil {
+		verifStatTokens.Add(1)
+	}
+
+	if v.tokens > p.Lexer.VerifLen()+8 {
+		panic(fmt.Sprintf("verif: token budget exceeded tokens=%d len=%d id=%d", v.tokens, p.Lexer.VerifLen(), int(t.ID)))
+	}
+
+	if t.Position != nil {
+		if t.Position.StartPos < v.lastEnd || t.Position.EndPos < t.Position.StartPos {
+			panic(fmt.Sprintf("verif: token order violated start=%d end=%d previous_end=%d id=%d", t.Position.StartPos, t.Position.EndPos, v.lastEnd, int(t.ID)))
+		}
+		v.lastEnd = t.Position.EndPos
+	}
+}
